@@ -418,7 +418,8 @@ def _norm_cmp(c):
 def d2(ctx, rep):
     prog = ctx.prog
     rep.rule('D2.range', 'check_marginal raises ValueError exactly when min(u) < 0 or max(u) > 1')
-    fn = prog.method(BIV, 'check_marginal', inherited=False)
+    from ..inline import inlined_view
+    fn = inlined_view(ctx, prog.method(BIV, 'check_marginal', inherited=False))      # validation split into private helpers is the same validation
     up = fn.params[1]
     # the condition under which a ValueError leaves check_marginal, as a formula over canonical comparison atoms
     from ..boolcond import Conds, atoms_of, equivalent, f_and, f_not, f_or, implies, satisfiable, show
